@@ -1,5 +1,5 @@
 import Storrent.Lemmas.PeerEvI
-import Storrent.Lemmas.TorI
+import Storrent.Lemmas.TorMetaI
 import Storrent.Props.C04
 /-
 C05 — No message sequence from a remote peer can crash or bloat the client.
@@ -190,30 +190,24 @@ theorem C05_worst_is_disconnect (s : PeerState) (hr : Reachable s) (m : PMsg) (a
 
 /-! ### torrent side -/
 
-/-- the geometry invariant of a torrent whose metadata is known (what tor.MetadataComplete
-    establishes): piece size a positive multiple of 16 KiB, one in-flight slot per block,
-    fewer than 2^32 blocks -/
-structure Geom.Valid (t : TorState) : Prop where
-  ps_pos : CS ≤ t.pieceSize
-  ps_mul : t.pieceSize % CS = 0
-  slots : t.inFlight.len = chunksOf t.length
-  small : chunksOf t.length < U32
-
-/-- the metadata buffers are sized consistently (resizeMetadata) and the guard of
-    gotMetadata is `>=` (the C12 repair) -/
-structure MetaInv (t : TorState) : Prop where
-  req_len : t.infoRequested.length = (t.infoLen + 16383) / 16384
-  cap : t.infoLen ≤ metaCap
-  guard : t.metaGuardGe = true
-
 /-- the events a peer can emit, as far as the torrent-side faults depend on them:
-    `TorData` is emitted only for a block `Pieces.AddData` accepted in full (empty, or
-    block-aligned and inside the torrent); `TorDrop` is `fromChunk` of a chunk the torrent
-    itself requested, for one block -/
+    `TorData` is emitted only for a block `Pieces.AddData` accepted in full (block-aligned
+    and inside the torrent; at most a frame long); `TorDrop` is `fromChunk` of a chunk the
+    torrent itself requested, for one block -/
 def PeerEmits (t : TorState) : TEv → Prop
   | .data i b l _ => l ≤ 1048576 ∧ (l = 0 ∨ (b % CS = 0 ∧ i * t.pieceSize + b + l ≤ t.length))
   | .drop i b l => l = CS ∧ b % CS = 0 ∧ (i * (t.pieceSize / CS) + b / CS) < chunksOf t.length
   | _ => True
+
+/-- what one event may cost the torrent, as a function of the event alone (no torrent
+    state, no numeric field beyond the index a peer was allowed to announce) -/
+def torCost : TEv → Nat
+  | .peerHave i _ => 2 * (i + 1)
+  | .peerBitmap bm _ => 10 * bmLen bm
+  | .peerExtended _ => 48 + metaConst
+  | .metaData _ _ _ => 1025 + metaConst
+  | .addKnown _ _ _ v => 512 + v.length
+  | _ => 0
 
 theorem release_ok (t : TorState) (hg : Geom.Valid t) (i b n : Nat)
     (h : n = 0 ∨ (i * (t.pieceSize / CS) + b / CS + n) ≤ chunksOf t.length) :
@@ -230,84 +224,147 @@ theorem release_ok (t : TorState) (hg : Geom.Valid t) (i b n : Nat)
     rw [h2, Nat.zero_add, Nat.mod_eq_of_lt (by omega)]
     exact h1
 
-/-- the `TorData`/`TorDrop` arm of `torHandle`, as an equation (checked by `rfl`) -/
-def releaseArm (t : TorState) (i b l : Nat) (tagE tagP tagN tagO tagS : String) (tagOk : String) : TResult :=
-  if !t.infoComplete then ⟨t, .ok, 0, tagN, 0⟩
-  else if b % CS ≠ 0 then ⟨t, .ok, 0, tagO, 0⟩
-  else if (b + l) % U32 > t.pieceSize then ⟨t, .ok, 0, tagS, 0⟩
-  else
-    match releaseLoop t ((i * (t.pieceSize / CS) + b / CS) % U32) ((l + CS - 1) % U32 / CS) 0 with
-    | none => ⟨t, .panic "index out of range", 0, tagP, 0⟩
-    | some t' => ⟨t', .ok, 0, if (l + CS - 1) % U32 / CS = 0 then tagE else tagOk, 0⟩
+/-- the `TorData`/`TorDrop` arm: the in-flight indexing stays inside the table -/
+theorem releaseArm_spec (t : TorState) (hi : TInv t) (i b l : Nat) (r : TResult)
+    (hr : r = torData t i b l ∨ r = torDrop t i b l)
+    (h : t.infoComplete = true → ((l + CS - 1) % U32 / CS = 0 ∨
+      (i * (t.pieceSize / CS) + b / CS + (l + CS - 1) % U32 / CS) ≤ chunksOf t.length)) :
+    (∀ w, r.res ≠ .panic w) ∧ r.alloc = 0 ∧ TInv r.t := by
+  rcases hr with rfl | rfl
+  · unfold torData
+    split
+    · exact ⟨by simp, rfl, hi⟩
+    rename_i hic
+    split
+    · exact ⟨by simp, rfl, hi⟩
+    split
+    · exact ⟨by simp, rfl, hi⟩
+    obtain ⟨t', ht'⟩ := release_ok t (hi.geom (by simpa using hic)) i b _ (h (by simpa using hic))
+    dsimp only
+    rw [ht']
+    exact ⟨by simp, rfl, tinv_same (releaseLoop_same _ _ _ _ _ ht') hi⟩
+  · unfold torDrop
+    split
+    · exact ⟨by simp, rfl, hi⟩
+    rename_i hic
+    split
+    · exact ⟨by simp, rfl, hi⟩
+    split
+    · exact ⟨by simp, rfl, hi⟩
+    obtain ⟨t', ht'⟩ := release_ok t (hi.geom (by simpa using hic)) i b _ (h (by simpa using hic))
+    dsimp only
+    rw [ht']
+    exact ⟨by simp, rfl, tinv_same (releaseLoop_same _ _ _ _ _ ht') hi⟩
 
-theorem torHandle_data (t : TorState) (i b l : Nat) (c : Bool) (env : TorEnv) :
-    (torHandle t (.data i b l c) env).res = (releaseArm t i b l "TData:empty" "TData:panic" "TData:nometa" "TData:odd" "TData:spans" "TData").res := by
-  unfold torHandle releaseArm
-  dsimp only
-  repeat' (first | rfl | (rename_i heq; rw [heq]; done) | split)
-
-theorem torHandle_drop (t : TorState) (i b l : Nat) (env : TorEnv) :
-    (torHandle t (.drop i b l) env).res = (releaseArm t i b l "TDrop" "TDrop:panic" "TDrop:nometa" "TDrop:odd" "TDrop:spans" "TDrop").res := by
-  unfold torHandle releaseArm
-  dsimp only
-  repeat' (first | rfl | (rename_i heq; rw [heq]; done) | split)
-
-theorem releaseArm_ok (t : TorState) (i b l : Nat) (a1 a2 a3 a4 a5 a6 : String)
-    (hg : t.infoComplete = true → Geom.Valid t)
-    (h : (l + CS - 1) % U32 / CS = 0 ∨
-      (i * (t.pieceSize / CS) + b / CS + (l + CS - 1) % U32 / CS) ≤ chunksOf t.length) :
-    ∀ w, (releaseArm t i b l a1 a2 a3 a4 a5 a6).res ≠ .panic w := by
-  intro w
-  unfold releaseArm
-  split
-  · simp
-  rename_i hic
-  split
-  · simp
-  rename_i hb
-  split
-  · simp
-  obtain ⟨t', ht'⟩ := release_ok t (hg (by simpa using hic)) i b _ h
-  rw [ht']
-  simp
-
-/-- C05_tor_no_panic — under the geometry invariant (explicit hypothesis),
-    `tor.handleEvent` does not fault on any `TorData`/`TorDrop` a peer can emit, whatever
-    index, offset and length it carries (the `t.inFlight[chunk]` indexing stays inside the
-    table; the uint32 wrap of `c.Begin+c.Length` cannot be reached from a peer). -/
-theorem C05_tor_no_panic (t : TorState) (e : TEv) (env : TorEnv)
-    (hg : t.infoComplete = true → Geom.Valid t) (he : PeerEmits t e)
-    (hrel : (∃ i b l c, e = .data i b l c) ∨ (∃ i b l, e = .drop i b l)) :
-    ∀ w, (torHandle t e env).res ≠ .panic w := by
-  rcases hrel with ⟨i, b, l, c, rfl⟩ | ⟨i, b, l, rfl⟩
-  · intro w
-    rw [torHandle_data]
-    by_cases hic : t.infoComplete = true
-    · have hv := hg hic
-      apply releaseArm_ok t i b l _ _ _ _ _ _ hg
+/-- C05_tor_no_panic — for every event a peer can emit (all ten event types: an index before
+    the piece count is known, a bitmap, an extension handshake with any metadata size, a
+    metadata block with any size/index/payload, `TorData`/`TorDrop`, the notifications),
+    in every torrent state satisfying the invariant (metadata buffers consistent, geometry
+    valid once complete — explicit hypotheses) and whatever the environment chooses
+    (any admissible geometry on completion): `tor.handleEvent` does not fault, keeps the
+    invariant, and allocates at most `torCost e`, a function of the event alone. -/
+theorem C05_tor_no_panic (t : TorState) (e : TEv) (env : TorEnv) (hi : TInv t)
+    (henv : EnvValid env) (he : PeerEmits t e) :
+    (∀ w, (torHandle t e env).res ≠ .panic w) ∧ (torHandle t e env).alloc ≤ torCost e ∧
+    TInv (torHandle t e env).t := by
+  cases e with
+  | peerUnchoke b => exact ⟨by simp [torHandle], by simp [torHandle], hi⟩
+  | peerInterested b => exact ⟨by simp [torHandle], by simp [torHandle], hi⟩
+  | goaway => exact ⟨by simp [torHandle], by simp [torHandle], hi⟩
+  | addKnown ip p k v => exact ⟨by simp [torHandle], by simp [torHandle, torCost], hi⟩
+  | peerHave i h =>
+    have hs := noteAvailable_same t i h
+    have ha : (noteAvailable t i h).2 ≤ 2 * (i + 1) := by
+      unfold noteAvailable; dsimp only; split <;> simp
+    unfold torHandle
+    dsimp only
+    generalize noteAvailable t i h = na at hs ha
+    obtain ⟨t', a⟩ := na
+    exact ⟨by simp, ha, tinv_same hs hi⟩
+  | peerBitmap bm h =>
+    refine ⟨by simp [torHandle], ?_, ?_⟩
+    · simp only [torHandle, torCost]; split <;> simp
+    · exact tinv_same (foldAvail_same _ h t) hi
+  | peerExtended n => exact arm_peerExtended t n env hi
+  | metaData size index data => exact arm_metaData t size index data env hi henv
+  | data i b l c =>
+    have hcount : t.infoComplete = true → ((l + CS - 1) % U32 / CS = 0 ∨
+        (i * (t.pieceSize / CS) + b / CS + (l + CS - 1) % U32 / CS) ≤ chunksOf t.length) := by
+      intro hic
       obtain ⟨hcap, he⟩ := he
       have hmod : (l + CS - 1) % U32 = l + CS - 1 := Nat.mod_eq_of_lt (by unfold CS U32; omega)
       rw [hmod]
+      have hv := hi.geom hic
       rcases he with h0 | ⟨hb, hle⟩
       · left; subst h0; unfold CS; rfl
       · right
-        -- i*ps = (i*cpp)*CS since CS divides ps
-        have hps : t.pieceSize = t.pieceSize / CS * CS := (Nat.div_mul_cancel (Nat.dvd_of_mod_eq_zero hv.ps_mul)).symm
-        have hi : i * t.pieceSize = i * (t.pieceSize / CS) * CS := by rw [Nat.mul_assoc, ← hps]
-        rw [hi] at hle
+        have hps : t.pieceSize = t.pieceSize / CS * CS :=
+          (Nat.div_mul_cancel (Nat.dvd_of_mod_eq_zero hv.ps_mul)).symm
+        have hip : i * t.pieceSize = i * (t.pieceSize / CS) * CS := by rw [Nat.mul_assoc, ← hps]
+        rw [hip] at hle
         generalize i * (t.pieceSize / CS) = P at hle ⊢
         unfold chunksOf CS at *
         omega
-    · unfold releaseArm; simp [hic]
-  · intro w
-    rw [torHandle_drop]
-    apply releaseArm_ok t i b l _ _ _ _ _ _ hg
-    obtain ⟨hl, hb, hlt⟩ := he
-    right
-    subst hl
-    have : (CS + CS - 1) % U32 / CS = 1 := by unfold CS U32; rfl
-    rw [this]
+    obtain ⟨h1, h2, h3⟩ := releaseArm_spec t hi i b l (torData t i b l) (Or.inl rfl) hcount
+    exact ⟨h1, by show (torData t i b l).alloc ≤ _; rw [h2]; exact Nat.zero_le _, h3⟩
+  | drop i b l =>
+    have hcount : t.infoComplete = true → ((l + CS - 1) % U32 / CS = 0 ∨
+        (i * (t.pieceSize / CS) + b / CS + (l + CS - 1) % U32 / CS) ≤ chunksOf t.length) := by
+      intro _
+      obtain ⟨hl, hb, hlt⟩ := he
+      right
+      subst hl
+      have : (CS + CS - 1) % U32 / CS = 1 := by unfold CS U32; rfl
+      rw [this]
+      omega
+    obtain ⟨h1, h2, h3⟩ := releaseArm_spec t hi i b l (torDrop t i b l) (Or.inr rfl) hcount
+    exact ⟨h1, by show (torDrop t i b l).alloc ≤ _; rw [h2]; exact Nat.zero_le _, h3⟩
+
+theorem bmRangeAux_lt (b : Bytes) (base : Nat) : ∀ x, x ∈ bmRangeAux b base → x < base + 8 * b.length := by
+  induction b generalizing base with
+  | nil => intro x hx; simp [bmRangeAux] at hx
+  | cons v r ih =>
+    intro x hx
+    unfold bmRangeAux at hx
+    rcases List.mem_append.mp hx with h | h
+    · split at h
+      · cases h
+      · obtain ⟨j, hj, hj2⟩ := List.mem_filterMap.mp h
+        have hj8 : j < 8 := by simpa using hj
+        split at hj2
+        · cases hj2; simp; omega
+        · cases hj2
+    · have := ih (base + 8) x h
+      simp at this ⊢; omega
+
+/-- a bitmap of `n` bytes announces at most `8n` pieces -/
+theorem bmLen_le (b : Bytes) : bmLen b ≤ 8 * b.length := by
+  unfold bmLen bmRange
+  split
+  · omega
+  · rename_i i hi
+    have := bmRangeAux_lt b 0 i (List.mem_of_getLast? hi)
     omega
+
+/-- C05_tor_alloc_bound — the torrent-side half of the allocation clause, for every event and
+    every state satisfying the invariant: the bytes `tor.handleEvent` allocates are bounded
+    by a function of the event alone, which for the events a message gives rise to is
+    proportional to the message or a constant of the code: an announced bitmap of `n` bytes
+    costs ≤ 80·n (availability counters, append growth included), an accepted index `i`
+    ≤ 2(i+1) with `i` below the piece count (or below 8·2^20 before it is known), a known-peer
+    record 512 + |version|, the metadata buffers ≤ `metaConst` (the 128 MiB cap of
+    metadataVote + request table + permutation) whatever size, block index, total_size or
+    payload the peer sends; `TorData`/`TorDrop`/notifications allocate nothing. -/
+theorem C05_tor_alloc_bound (t : TorState) (e : TEv) (env : TorEnv) (hi : TInv t)
+    (henv : EnvValid env) (he : PeerEmits t e) :
+    (torHandle t e env).alloc ≤ torCost e ∧
+    (∀ bm h, e = .peerBitmap bm h → torCost e ≤ 80 * bm.length) ∧
+    (∀ n, e = .peerExtended n → torCost e = 48 + metaConst) ∧
+    (∀ sz ix d, e = .metaData sz ix d → torCost e = 1025 + metaConst) := by
+  refine ⟨(C05_tor_no_panic t e env hi henv he).2.1, ?_, ?_, ?_⟩
+  · intro bm h hb; subst hb; simp only [torCost]; have := bmLen_le bm; omega
+  · intro n hn; subst hn; rfl
+  · intro sz ix d hd; subst hd; rfl
 
 /-! ### allocation (partial: the clause about attacker-chosen indexes) -/
 
@@ -334,6 +391,7 @@ theorem C05_alloc_kernel (b : Bytes) (t : TorState) (i : Nat) (hv : Bool) :
 example : Reachable {} := .init _ ⟨rfl, by simp⟩
 example : Reachable (handleMessage {} (.wire (.have 7)) {}).s :=
   .step _ _ (.init _ ⟨rfl, by simp⟩) (.msg _ _ _ trivial)
+example : TInv {} := ⟨⟨by simp, by simp [metaCap], by simp, rfl⟩, by simp⟩
 example : Geom.Valid { infoComplete := true, pieceSize := 32768, length := 100000, inFlight := { len := 7 } } :=
   ⟨by decide, by decide, by decide, by decide⟩
 example : PeerEmits { pieceSize := 32768, length := 100000 } (.data 3 0 1696 false) := ⟨by decide, Or.inr ⟨by decide, by decide⟩⟩
